@@ -192,11 +192,20 @@ def round_finder(ctx: Ctx, rng: random.Random, n: int) -> None:
                 ctx.violation(f"round-finder:shell:{kind}", f"find_shell returned {sorted(got_shell)}, rim vertices are {sorted(rim)}", {"kind": kind, "end": end})
 
 
-def reorient(ctx: Ctx, view: dict, rng: random.Random, full: bool, oblique: bool = False) -> None:
+def reorient(ctx: Ctx, view: dict, rng: random.Random, full: bool, oblique: bool = False, tiny: bool = False) -> None:
     import classy_blocks as cb
     import numpy as np
 
     point, vector, scale = similarity(rng)
+    if tiny:
+        # a block of 0.2 mm in a model given in metres (two thousand merge tolerances across): which points of the hull
+        # coincide is a matter of the merge tolerance, not of the size of the block
+        big_point, anchor, k = point, point([0, 0, 0]), 2e-5 / scale
+
+        def point(p):      # noqa: F811
+            q = big_point(p)
+            return [anchor[i] + k * (q[i] - anchor[i]) for i in range(3)]
+        scale *= k
     if oblique:
         # viewpoints in general position: the block is turned with respect to the line of sight and the ceiling point is
         # pulled towards/away from the observer; Find.tla decided front and top by a 1.5x margin, so only a mild distortion
@@ -234,6 +243,8 @@ def reorient(ctx: Ctx, view: dict, rng: random.Random, full: bool, oblique: bool
             mirrored = "mirrored" if num not in rotations else "rotated"
             if oblique:
                 mirrored += ":oblique"
+            if tiny:
+                mirrored += ":tiny-block"
             try:
                 cb.ViewpointReorienter(observer, ceiling).reorient(op)
             except Exception as err:  # pylint: disable=broad-except
@@ -271,5 +282,7 @@ def run(ctx: Ctx) -> None:
     round_finder(ctx, rng, 6 if ctx.tier == "quick" else 40)
     reorient(ctx, views[0], rng, full=ctx.tier == "thorough")
     reorient(ctx, views[0], rng, full=ctx.tier == "thorough", oblique=True)
+    reorient(ctx, views[0], rng, full=False, tiny=True)
+    reorient(ctx, views[0], rng, full=False, oblique=True, tiny=True)
     ctx.sample({k: qs[0][k] for k in ("kind", "c", "r22", "n")} | {"found": qs[0]["found"][:5]})
     ctx.exhaustive = ctx.tier == "thorough"
